@@ -31,3 +31,5 @@ import Csproto.Props.C04FirstUse
 #print axioms Csproto.C04Ext.first_use_agree
 #print axioms Csproto.C04Ext.placeholder_answer_breaks_it
 #print axioms Csproto.C04Ext.fact_type_cache_protocol
+-- the quantifier over generator options: the option list of run.go is the one the model accounts for
+#print axioms Csproto.Bridge.Templates.generator_options_known
